@@ -251,7 +251,11 @@ Step ==
   /\ l' = l + 1
   /\ LET e == Rec[l + 1] IN
      IF e.e = "Reset"
-     THEN h' = [H0 EXCEPT !.cfg = e.cfg, !.uris = e.uris, !.run = e.run, !.base = l + 1, !.viol = h.viol]
+     THEN \* without a pool (`without_pool`) every checkout is detached: nothing is reused, nothing continues in the
+          \* background; the pool-dependent clauses are off exactly as after DropPool
+          LET np == "noPool" \in DOMAIN e.cfg /\ e.cfg.noPool IN
+          h' = [H0 EXCEPT !.cfg = [cap |-> e.cfg.cap /\ ~np, maxIdle |-> e.cfg.maxIdle, idleTimeout |-> e.cfg.idleTimeout],
+                          !.alive = ~np, !.uris = e.uris, !.run = e.run, !.base = l + 1, !.viol = h.viol]
      ELSE LET pre == Rec[l].obs
               post == e.obs
               new == Clauses(h, pre, e, post)
